@@ -186,12 +186,13 @@ impl Monitor for Mon {
         if let Act::FundAdmin { msg: fund::ExecuteMsg::ShutdownVamms {}, sender } = s.act {
             if *sender == w.owner {
                 out.count("shutdown_calls");
-                let reg: Vec<usize> = (0..w.vamms.len()).filter(|i| s.pre.v[*i].registered).collect();
-                // the clause presupposes properly wired vAMMs: a registered vAMM whose own insurance-fund setting points elsewhere
-                // cannot be closed by the fund (its owner unplugged it), and the fund's call then fails as a whole
-                if reg.iter().any(|i| s.pre.v[*i].cfg.insurance_fund != w.fund) {
-                    out.count("shutdown_with_a_rewired_vamm_unasserted");
-                    return None;
+                let all_reg: Vec<usize> = (0..w.vamms.len()).filter(|i| s.pre.v[*i].registered).collect();
+                // a registered vAMM that neither names the fund as its insurance fund nor is owned by it cannot be closed by the fund
+                // (its owner unplugged it): the statement can only be met for the vAMMs the fund has authority over - but for those
+                // it must be met whatever the others do
+                let reg: Vec<usize> = all_reg.iter().copied().filter(|i| s.pre.v[*i].cfg.insurance_fund == w.fund || w.vamm_admin(*i) == w.fund.as_str()).collect();
+                if reg.len() < all_reg.len() {
+                    out.count("shutdown_with_a_vamm_beyond_the_funds_authority");
                 }
                 let closed_before = reg.iter().filter(|i| !s.pre.v[**i].state.open).count();
                 if closed_before > 0 && closed_before < reg.len() {
@@ -239,6 +240,7 @@ pub fn prop() -> HistProp {
     w.liq_weakest = 8;
     // a vAMM owner may point the vAMM's insurance-fund setting at a foreign registry that lists it too
     w.rewire = 4;
+    w.paused_liq = 2;
     HistProp {
         id: "C14",
         level: "exploration",
